@@ -5,6 +5,7 @@ import (
 	"math"
 	"math/rand"
 	"reflect"
+	"strconv"
 	"strings"
 	"time"
 
@@ -21,36 +22,43 @@ import (
 // A recursive family of named types. Fields named Decoy* / decoy* would produce a clause if the
 // walker visited them although it must not (no required/exist marker, unexported, time.Time).
 type C04Node struct {
-	Name        string              `valid:"required|m_name"`
-	N           int                 `valid:"ge=1|m_n"`
-	Kid         *C04Node            `valid:"exist"`
-	Kids        []*C04Node          `valid:"exist"`
-	ReqKid      *C04Node            `valid:"required|m_reqkid"`
-	Vals        []C04Leaf           `valid:"required|m_vals"`
-	Arr         [2]C04Leaf          `valid:"exist"`
-	ArrP        [2]*C04Leaf         `valid:"exist"`
-	M           map[string]C04Leaf  `valid:"exist"`
-	MI          map[int]*C04Node    `valid:"exist"`
-	MU          map[uint64]C04Leaf  `valid:"exist"`
-	MF          map[float64]C04Leaf `valid:"exist"`
-	PP          **C04Leaf           `valid:"exist"`
-	Both        *C04Leaf            `valid:"required,exist"`
-	DecoyV      C04Leaf             // no marker: never validated
-	DecoyP      *C04Leaf            `json:"decoy"`
-	DecoyS      []C04Leaf           `json:"decoys"`
-	DecoyM      map[string]*C04Leaf `valid:""`
-	decoyHid    C04Leaf             `valid:"required"`
-	decoyHidP   *C04Leaf            `valid:"exist"`
-	DecoyT      time.Time           `valid:"required"`
-	DecoyTP     *time.Time          `valid:"exist"`
-	ñDecoy      *C04Leaf            `valid:"required"` // names that start with a non-ASCII lower-case letter are unexported too
-	öDecoyL     []C04Leaf           `valid:"exist"`
-	ωDecoy      C04Leaf             `valid:"exist"`
-	Ints        []int               `valid:"exist"`
-	C04Emb      `valid:"exist"`     // embedded, marked: validated under the path Parent.C04Emb
-	C04DecoyEmb                     // embedded, unmarked: never validated
+	Name        string                 `valid:"required|m_name"`
+	N           int                    `valid:"ge=1|m_n"`
+	Kid         *C04Node               `valid:"exist"`
+	Kids        []*C04Node             `valid:"exist"`
+	ReqKid      *C04Node               `valid:"required|m_reqkid"`
+	Vals        []C04Leaf              `valid:"required|m_vals"`
+	Arr         [2]C04Leaf             `valid:"exist"`
+	ArrP        [2]*C04Leaf            `valid:"exist"`
+	M           map[string]C04Leaf     `valid:"exist"`
+	MI          map[int]*C04Node       `valid:"exist"`
+	MU          map[uint64]C04Leaf     `valid:"exist"`
+	MF          map[float64]C04Leaf    `valid:"exist"`
+	MMo         map[time.Month]C04Leaf `valid:"exist"` // key types with a String method: the key is named as it prints
+	MK          map[C04Key]*C04Leaf    `valid:"required|m_mk"`
+	PP          **C04Leaf              `valid:"exist"`
+	Both        *C04Leaf               `valid:"required,exist"`
+	DecoyV      C04Leaf                // no marker: never validated
+	DecoyP      *C04Leaf               `json:"decoy"`
+	DecoyS      []C04Leaf              `json:"decoys"`
+	DecoyM      map[string]*C04Leaf    `valid:""`
+	decoyHid    C04Leaf                `valid:"required"`
+	decoyHidP   *C04Leaf               `valid:"exist"`
+	DecoyT      time.Time              `valid:"required"`
+	DecoyTP     *time.Time             `valid:"exist"`
+	ñDecoy      *C04Leaf               `valid:"required"` // names that start with a non-ASCII lower-case letter are unexported too
+	öDecoyL     []C04Leaf              `valid:"exist"`
+	ωDecoy      C04Leaf                `valid:"exist"`
+	Ints        []int                  `valid:"exist"`
+	C04Emb      `valid:"exist"`        // embedded, marked: validated under the path Parent.C04Emb
+	C04DecoyEmb                        // embedded, unmarked: never validated
 	*C04EmbP    `valid:"required|m_embp"`
 }
+
+// C04Key prints through its String method.
+type C04Key int
+
+func (k C04Key) String() string { return "key#" + strconv.Itoa(int(k)) }
 
 type C04Emb struct {
 	EX string `valid:"required|m_ex"`
@@ -68,6 +76,11 @@ type C04Leaf struct {
 	X string `valid:"required|m_x"`
 	Y int    `valid:"le=5|m_y"`
 	z string `valid:"required"`
+	// cross-field groups inside sub-objects: judged per object, named by the object's path
+	E1 string `valid:"either=1"`
+	E2 int    `valid:"either=1"`
+	P1 string `valid:"botheq=2"`
+	P2 string `valid:"botheq=2"`
 }
 
 func c04Leaf(rng *rand.Rand) C04Leaf {
@@ -76,6 +89,15 @@ func c04Leaf(rng *rand.Rand) C04Leaf {
 		l.X = "x"
 	}
 	l.Y = rng.Intn(9)
+	if rng.Intn(2) == 0 {
+		l.E1 = "e"
+	}
+	l.E2 = rng.Intn(2)
+	l.P1 = []string{"", "p", "q"}[rng.Intn(3)]
+	l.P2 = l.P1
+	if rng.Intn(3) == 0 {
+		l.P2 = []string{"", "p", "q"}[rng.Intn(3)]
+	}
 	return l
 }
 
@@ -136,6 +158,12 @@ func c04Node(rng *rand.Rand, depth int) *C04Node {
 		n.MF = map[float64]C04Leaf{math.NaN(): c04Leaf(rng), 1.5: c04Leaf(rng)} // an entry under a key that is not equal to itself
 	}
 	if rng.Intn(3) == 0 {
+		n.MMo = map[time.Month]C04Leaf{time.March: c04Leaf(rng), 14: c04Leaf(rng)}
+	}
+	if rng.Intn(2) == 0 {
+		n.MK = map[C04Key]*C04Leaf{3: c04LeafP(rng), -1: c04LeafP(rng)}
+	}
+	if rng.Intn(3) == 0 {
 		n.MU = map[uint64]C04Leaf{1 << 63: c04Leaf(rng), ^uint64(0): c04Leaf(rng), 5: c04Leaf(rng)}
 	}
 	if rng.Intn(2) == 0 {
@@ -167,7 +195,7 @@ func c04Node(rng *rand.Rand, depth int) *C04Node {
 func init() {
 	core.Register(&core.Prop{
 		ID: "C04",
-		Rule: "(a) random acyclic object graphs of a recursive family of named types (depth 0-4 quick, 0-5 thorough; embedded structs marked and unmarked; every container form: *T, **T, []T, []*T, [2]T, [2]*T, map[string]T, map[int]*T; each node independently nil / zero / populated; nil elements; decoy sub-objects on unmarked, unexported and time.Time fields that would fail if visited) through T, *T, **T, []T, []*T, [n]T, map[string]T and map[int]*T top-level inputs; " +
+		Rule: "(a) random acyclic object graphs of a recursive family of named types (depth 0-4 quick, 0-5 thorough; embedded structs marked and unmarked; every container form: *T, **T, []T, []*T, [2]T, [2]*T, map[string]T, map[int]*T, maps keyed by uint64, float64 (NaN) and types with a String method; each node independently nil / zero / populated; nil elements; decoy sub-objects on unmarked, unexported and time.Time fields that would fail if visited) through T, *T, **T, []T, []*T, [n]T, map[string]T and map[int]*T top-level inputs; " +
 			"(b) struct types synthesised with reflect.StructOf, nesting depth <= 4, struct-valued fields independently tagged required / exist / both / neither. The (path, rule-instance) pairs of the returned error must equal the reference validator's recursive descent. distinct = distinct (type, value) rendering; non-trivial = at least one clause expected below the top level or a decoy present",
 		Shards: func(t core.Tier) int { return 16 },
 		Run:    runC04,
